@@ -364,6 +364,30 @@ func (c *Check) skipGuard(rel, fn, callee string, argIdx int, flags []string) {
 			}
 			walk(f.Blocks[0])
 			if reach[call.Block()] {
+				// the tests may be combined into values (a tagless switch with && cases) or sit
+				// in a predicate helper that is handed the mapping: evaluate them
+				assume := func(v ssa.Value) int {
+					if d := condAssume(v, force, mv, flag); d != 0 {
+						return d
+					}
+					if d := classifierAssume(v, force, mv, flag); d != 0 {
+						return d
+					}
+					if hc, ok := v.(*ssa.Call); ok {
+						if h := hc.Call.StaticCallee(); h != nil && fnInModule(h) && len(h.Blocks) > 0 && len(h.Params) == len(hc.Call.Args) {
+							for i, a := range hc.Call.Args {
+								if a == mv {
+									par := h.Params[i]
+									return boolResultUnder(h, func(c2 ssa.Value) int { return condAssume(c2, nil, par, flag) })
+								}
+							}
+						}
+					}
+					return 0
+				}
+				reach = reachUnder(f, assume)
+			}
+			if reach[call.Block()] {
 				c.bad("C12-R2", key, c.P.relFile(call.Pos()), fmt.Sprintf("%s is reachable in %s with force=false for a mapping whose %s is already set", callee, fn, flag))
 			} else {
 				c.ok("C12-R2", key, c.P.relFile(call.Pos()), fmt.Sprintf("a mapping with %s set is skipped by %s unless force", flag, fn), "call block unreachable in the CFG restricted to force=false ∧ m."+flag+"=true")
